@@ -61,6 +61,15 @@ def gen_history(rng):
             s = contig_pos.get(name, 0) + rng.choice([1, 1, 2, 10])
             contig_pos[name] = s + L - 1
             rows.append(["F", name, s, s + L - 1, rng.choice([1, 1, 1, -1, -1, 0])])
+    if len(rows) > 1 and rng.random() < 0.12:
+        # the same contig region twice (value-equal rows): first and last, or anywhere
+        frs = [r for r in rows if r[0] == "F"]
+        if frs:
+            dup = list(rng.choice(frs))
+            if rng.random() < 0.5:
+                rows.append(dup)
+            else:
+                rows.insert(rng.randrange(len(rows) + 1), dup)
     if not any(r[0] == "F" for r in rows):
         rows.insert(rng.randrange(len(rows) + 1), ["F", "c1", 1, rng.choice([1, 4, 30]), rng.choice([1, -1])])
     total = sum((r[1] if r[0] == "G" else r[3] - r[2] + 1) for r in rows)
@@ -80,7 +89,7 @@ def gen_history(rng):
             ops.append(["trim_large_overhangs", rng.choice([1, 2, 3, 5, 8, 20, 60, b - a + 1, b - a + 2])])
         else:
             ops.append(["trim_fragment", rng.choice(["first", "last"]), rng.random() < 0.3, rng.random() < 0.3])
-    return {"rows": rows, "bait": bait, "ops": ops}
+    return {"rows": rows, "bait": bait, "ops": ops, "via_add_row": rng.random() < 0.4, "decoy": rng.random() < 0.35}
 
 
 # ---------------------------------------------------------------------------
@@ -114,6 +123,7 @@ class Checker:
             self.starts.append(p)
             p += r.length
         self.ends = [s + r.length - 1 for s, r in zip(self.starts, self.src)]
+        self.ambiguous = False
 
     # -- locate the object's rows in the source ------------------------------
     def observe(self, ov):
@@ -126,6 +136,7 @@ class Checker:
         if _is_gap(rows[0]) or _is_gap(rows[-1]):
             raise Bad("terminal_gap", f"terminal gap left behind: first={rows[0]} last={rows[-1]}")
         cands = [k for k in range(len(self.src)) if self._matches(self.src[k], rows[0])]
+        found = []
         for i in cands:
             j = i + len(rows) - 1
             if j >= len(self.src):
@@ -135,7 +146,11 @@ class Checker:
             if all(rows[k] is self.src[i + k] or self._same(rows[k], self.src[i + k]) for k in range(1, len(rows) - 1)):
                 cuts = self._cuts(i, j, rows)
                 if cuts is not None:
-                    return (i, j) + cuts
+                    found.append((i, j) + cuts)
+        if found:
+            # a scaffold may hold value-equal rows more than once: every position
+            # at which the rows fit is a candidate, the reported span picks one
+            return found
         raise Bad(
             "rows_not_contiguous_run",
             "rows are not a contiguous run of the source scaffold with only terminal fragments shortened:\n rows="
@@ -207,28 +222,31 @@ class Checker:
             )
         if ov.length != total:
             raise Bad("span_length", f"{why}: length {ov.length} != total row length {total}")
-        st = self.observe(ov)
-        if st is None:
+        cands = self.observe(ov)
+        if cands is None:
             return None
-        if st[2] == "either":
-            i, j = st[0], st[1]
-            lo, hi = st[3], st[4]
-            opts = [(lo, hi), (hi, lo)]
-            ok = [o for o in opts if ov.start == self.starts[i] + o[0] and ov.end == self.ends[j] - o[1]]
-            if not ok:
-                raise Bad("span_position", f"{why}: span {ov.start}..{ov.end} does not match the rows' scaffold coordinates "
-                          f"(row {i} at {self.starts[i]}..{self.ends[i]}, cuts {lo}/{hi} in unknown orientation)")
-            cl, cr = ok[0]
-        else:
-            i, j, cl, cr = st
-        exp_start = self.starts[i] + cl
-        exp_end = self.ends[j] - cr
-        if (ov.start, ov.end) != (exp_start, exp_end):
+        resolved = []
+        for st in cands:
+            if st[2] == "either":
+                i, j, lo, hi = st[0], st[1], st[3], st[4]
+                for o in ((lo, hi), (hi, lo)):
+                    resolved.append((i, j, o[0], o[1]))
+            else:
+                resolved.append(st)
+        fit = [st for st in resolved
+               if ov.start == self.starts[st[0]] + st[2] and ov.end == self.ends[st[1]] - st[3]]
+        if not fit:
+            i, j, cl, cr = resolved[0]
             raise Bad(
                 "span_position",
                 f"{why}: reported span {ov.start}..{ov.end} but the remaining rows (source rows {i}..{j}, cut {cl}/{cr}) "
-                f"cover {exp_start}..{exp_end}",
+                f"cover {self.starts[i] + cl}..{self.ends[j] - cr}"
+                + (f" (or one of {len(resolved) - 1} other positions at which the same rows occur)" if len(resolved) > 1 else ""),
             )
+        i, j, cl, cr = fit[0]
+        self.ambiguous = len(fit) > 1 or any(st[2] == "either" for st in cands)
+        exp_start = self.starts[i] + cl
+        exp_end = self.ends[j] - cr
         # derived figures: plain interval arithmetic between span, terminal rows and bait
         exp = {
             "start_overhang": b.start - exp_start,
@@ -327,8 +345,21 @@ def build(hist):
             rows.append(Gap(r[1], r[2]))
         else:
             rows.append(Fragment(r[1], r[2], r[3], r[4]))
-    sc = Scaffold("scf", rows)
+    if hist.get("via_add_row"):
+        sc = Scaffold("scf")
+        for r in rows:
+            sc.add_row(r)
+    else:
+        sc = Scaffold("scf", rows)
     ia = IndexedAssembly("asm", scaffolds=[sc])
+    if hist.get("decoy"):
+        # an unrelated scaffold built afterwards from the same kinds of rows (as a
+        # parser would, row by row): it must not disturb the indexed one
+        decoy = Scaffold("decoy")
+        for r in hist["rows"] + hist["rows"][::-1]:
+            decoy.add_row(Gap(r[1], r[2]) if r[0] == "G" else Fragment(r[1], r[2], r[3], r[4]))
+        decoy.reverse()
+        ia.add_scaffold(decoy)
     a, b, strand, tags = hist["bait"]
     bait = Fragment("scf", a, b, strand, tuple(tags))
     return sc, ia, bait
@@ -355,6 +386,7 @@ def run_history(hist):
             if not ov.rows:
                 break
             pre = {"start_overhang": ov.start_overhang, "end_overhang": ov.end_overhang}
+            was_ambiguous = ck.ambiguous
             nrows_before = (len(ov.rows), ov.start, ov.end)
             try:
                 if op[0] == "discard_start":
@@ -375,7 +407,7 @@ def run_history(hist):
             info["steps"] += 1
             if (len(ov.rows), ov.start, ov.end) != nrows_before:
                 info["changed"] = True
-            if isinstance(state, tuple) and state[2] != "either" and (new is None or new[2] != "either"):
+            if isinstance(state, tuple) and not was_ambiguous and not ck.ambiguous:
                 if not ck.legal(op, state, new, pre):
                     raise Bad("illegal_transition", f"{why}: model state {state} -> {new} is not what {op} may do "
                               f"(overhangs before: {pre})")
@@ -457,6 +489,18 @@ def pipeline_monitor(rng):
         ba = BuildAssembly("x", default_gap=Gap(200, "scaffold"))
         try:
             ba.remap_to_input_assembly(prtxt, ia)
+            # building the output assemblies reads the overlap results; it must
+            # leave them as they were
+            ba.assemblies_with_scaffolds_fused()
+            for ck, ov in list(checkers.values()):
+                if bad:
+                    break
+                if ov.rows:
+                    try:
+                        ck.check(ov, "after the output assemblies were fused (pipeline)")
+                        steps[0] += 1
+                    except Bad as b:
+                        bad.append(b)
         except Exception:  # noqa: BLE001 - maps the tool rejects are not this property's business
             pass
     finally:
